@@ -182,11 +182,21 @@ inductive EK where
 
 /-! ## `ir_util` helpers -/
 
+/-- What `ir_util.get_attribute` compares: name and `is_default`; NOT the back-end qualifier
+(quirk, open finding). -/
+def Attr.named (a : Attr) (n : String) : Bool :=
+  a.name = n ∧ a.isDefault = false
+
+/-- What `attribute_util.gather_default_attributes` picks up, restricted to `byte_order`: every
+`$default byte_order`, whatever its back-end qualifier (same quirk). -/
+def Attr.isByteOrderDefault (a : Attr) : Bool :=
+  a.isDefault = true ∧ a.name = "byte_order"
+
 /-- `ir_util.get_attribute`: first non-default attribute of that name.  The back-end
 qualifier is NOT looked at (quirk).  (The Python asserts that there is at most one; see
 `EK.crash` for the one way the front end itself creates two.) -/
 def getAttr (attrs : List Attr) (n : String) : Option AVal :=
-  (attrs.find? (fun a => a.name = n ∧ a.isDefault = false)).map (·.val)
+  (attrs.find? (fun a => a.named n)).map (·.val)
 
 /-- `ir_util.get_integer_attribute`. -/
 def getInt (attrs : List Attr) (n : String) : Option Int :=
@@ -194,11 +204,24 @@ def getInt (attrs : List Attr) (n : String) : Option Int :=
   | some (.int (some v)) => some v
   | _ => none
 
-/-- `ir_util.get_boolean_attribute`: only a literal `boolean_constant` counts. -/
+/-- What `ir_util.get_boolean_attribute` makes of an attribute value: only a literal
+`boolean_constant` counts (`[is_signed: 1 == 1]` is "no value": open finding). -/
+def AVal.boolValue : AVal → Option Bool
+  | .bool (some b) true => some b
+  | _ => none
+
+theorem AVal.boolValue_spec {v : AVal} {b : Bool} (h : v.boolValue = some b) :
+    ∃ l, v = .bool (some b) l := by
+  unfold AVal.boolValue at h
+  split at h
+  · cases h; exact ⟨_, rfl⟩
+  · cases h
+
+/-- `ir_util.get_boolean_attribute`. -/
 def getBoolLit (attrs : List Attr) (n : String) : Option Bool :=
   match getAttr attrs n with
-  | some (.bool (some b) true) => some b
-  | _ => none
+  | some v => v.boolValue
+  | none => none
 
 def Forest.find (id : Nat) : Forest → Option TypeInfo
   | .nil => none
@@ -273,8 +296,7 @@ def effMaxBits (t : TypeInfo) : Int :=
 def effSigned (t : TypeInfo) (values : List EnumValue) : Option Bool :=
   match getAttr t.attrs "is_signed" with
   | none => some (values.any (fun v => v.value < 0))
-  | some (.bool (some b) true) => some b
-  | some _ => none
+  | some v => v.boolValue
 
 /-- `ir_util.fixed_size_of_type_in_bits` of an atomic type. -/
 def leafFixedSize (p : Program) (leaf : Nat × Option Int) : Option Int :=
@@ -298,7 +320,7 @@ def earlyParam (q : Param) : List EK :=
 /-- `attribute_util.gather_default_attributes`, restricted to `byte_order` (the only
 defaultable front-end attribute that is ever read back). -/
 def gatherDefault (attrs : List Attr) (cur : Option AVal) : Option AVal :=
-  attrs.foldl (fun d a => if a.isDefault = true ∧ a.name = "byte_order" then some a.val else d) cur
+  attrs.foldl (fun d a => if a.isByteOrderDefault then some a.val else d) cur
 
 /-- Every type definition of a forest (preorder), each with the `$default byte_order` in
 effect for its fields (its own `$default` included). -/
@@ -683,6 +705,13 @@ def Bound.fin? : Bound → Option Int
   | .fin v => some v
   | _ => none
 
+/-- `_check_type_requirements_for_field` on a scalar field one of whose size bounds is
+`"-infinity"`/`"infinity"` (`unit`: bits per addressable unit; `explicit`: the `:n` of the type;
+`typeSize`: the type's fixed size): `int("infinity")` raises ValueError (open finding). -/
+def typeReqUnbounded (_rt : TypeInfo) (_unit : Int) (_mn _mx : Bound)
+    (_explicit _typeSize : Option Int) : List EK :=
+  [.crash]
+
 /-- `_check_type_requirements_for_field`, on the atomic leaf of the field's type. -/
 def typeReq (p : Program) (t : TypeInfo) (f : Field) : List EK :=
   let leaf := f.ty.leaf
@@ -712,7 +741,7 @@ def typeReq (p : Program) (t : TypeInfo) (f : Field) : List EK :=
             else physReq rt (some e))
          | none, none =>
            physReq rt (if fmin = fmax then some fmin else none))
-      | _, _ => [.crash]                         -- int("infinity")
+      | _, _ => typeReqUnbounded rt unit f.sizeMin f.sizeMax leaf.2 typeSize
     else
       match leaf.2, typeSize with
       | some e, some ts => if e ≠ ts then [.explicitMismatch] else physReq rt (some e)
